@@ -1033,6 +1033,17 @@ func (vc *VC) siteCheck(act *Act, st *State, shape string, site ssa.Instruction,
 			vc.counts[ck]++
 			vc.oblige(st, &Obligation{Name: fmt.Sprintf("%s#%d", ck, cn), Kind: "cover", Cover: true, Clause: "matched instruction is reachable", Src: vc.srcPos(site.Pos()), Tags: s.Tags, Func: vc.eng.shortName(vc.root)}, "true")
 		}
+		for n, c := range s.Covers {
+			// the instruction is reached in some state where the clause holds (unsat = it never is: reported)
+			key := fmt.Sprintf("site#%s#%s#cover#%s", s.Name, vc.eng.shortName(act.fn), clauseName(c, n))
+			k := vc.counts[key]
+			vc.counts[key]++
+			tags := c.Tags
+			if len(tags) == 0 {
+				tags = s.Tags
+			}
+			vc.oblige(st, &Obligation{Name: fmt.Sprintf("%s#%d", key, k), Kind: "cover", Cover: true, Clause: "reachable with: " + c.Text, Src: vc.srcPos(site.Pos()), Tags: tags, Func: vc.eng.shortName(vc.root)}, vc.evalBool(env, c))
+		}
 		for n, a := range s.Asserts {
 			key := fmt.Sprintf("site#%s#%s#%s", s.Name, vc.eng.shortName(act.fn), clauseName(a, n))
 			k := vc.counts[key]
